@@ -49,6 +49,8 @@ class Payload:
 
 
 def work(payload, *args, **kwargs):
+    if payload.mode == 'interrupt':
+        raise KeyboardInterrupt()
     if payload.mode in ('boom-any', 'boom-listed'):
         raise Boom(payload.idx)
     if payload.mode == 'bang-base':
@@ -293,12 +295,46 @@ def real_pool_conformance(rc):
         rc.violation('real-executor-differs', got=got, want=want)
 
 
+def interrupted_histories(rc):
+    """Calls of the loop are independent: after a run that was interrupted (a task raised KeyboardInterrupt, which
+    sets that run's stop flag), every later run yields what it yields in a process without that history."""
+    import tatsu.parproc  # noqa: F401
+    firsts = []
+    for n in (1, 2, 3):
+        for k in range(n):
+            modes = tuple('interrupt' if i == k else 'ok' for i in range(n))
+            for par in (False, True):
+                firsts.append((modes, par))
+    seconds = [(('ok',), False), (('ok', 'ok'), False), (('ok', 'boom-any', 'ok'), False), (('ok', 'ok'), True), (('ok', 'boom-listed', 'ok'), True)]
+    n = 0
+    for modes2, par2 in seconds:
+        alone = set()
+        for _c, _ch, obs in explore(lambda ch: run_parproc(ch, modes2, 2, parallel=par2), bound=None):
+            alone.add(Counter(obs).__repr__())
+        for modes1, par1 in firsts:
+            import contextlib
+            import io
+            with contextlib.redirect_stdout(io.StringIO()), contextlib.redirect_stderr(io.StringIO()):
+                first = run_parproc(Chooser(), modes1, 2, parallel=par1)
+            for _c, _ch, obs in explore(lambda ch: run_parproc(ch, modes2, 2, parallel=par2), bound=None):
+                n += 1
+                rc.add('evaluations')
+                rc.add('nontrivial')
+                if Counter(obs).__repr__() not in alone:
+                    rc.violation('history/run-after-an-interrupted-run-differs', first=[modes1, 'parallel' if par1 else 'sequential', first],
+                                 second=[modes2, 'parallel' if par2 else 'sequential'], got=obs, alone=sorted(alone)[:3])
+                    break
+    rc.coverage['interrupted_histories'] = n
+
+
 def run(rc):
+    interrupted_histories(rc)
     cfgs = list(configs(rc.tier))
     rc.rule = ('every payload list of length 0..{n}, every subset raising a captured exception (raises() empty / listing the class / '
                'listing a base class), max_workers 1..{w}; for each, the complete choice tree of the deterministic executor '
                '(which running future completes, which finished future is yielded, completions between yields, inside or outside the '
-               'as_completed snapshot); non-trivial = schedule with at least one non-default choice').format(
+               'as_completed snapshot); plus two-run histories: a run interrupted by KeyboardInterrupt at each position (sequential, single task, parallel) '
+               'followed by each of five ordinary runs under all their schedules; non-trivial = schedule with at least one non-default choice').format(
         n='4' if rc.tier == 'quick' else '5 (6 with <=2 deviations)', w=2 if rc.tier == 'quick' else 3)
     # big configs first so the pool balances
     cfgs.sort(key=lambda c: -(len(c[0]) * 10 + c[1]) if c[2] is None else 0)
@@ -321,7 +357,7 @@ def run(rc):
     rc.assumptions += [
         'executor contract: only the max_workers earliest unfinished submissions can complete; as_completed snapshots its argument',
         'captured exceptions exclude RuntimeError (taskproc re-raises RuntimeError by design) and KeyboardInterrupt',
-        'the stop event is never set (no KeyboardInterrupt injected)',
+        'within one run the stop event is never set; KeyboardInterrupt is injected only in the first run of the two-run histories',
     ]
 
 
